@@ -623,6 +623,9 @@ def c08(tier):
             sc.kw["tmp_on_other_fs"] = True
             sc.name += "-xdev"
             rl.planned_runs(binary, sc, [[("edit", ""), ("check", "")]], batch, v, sigbase={"xdev": True})
+    # more files than a process may hold open at once
+    many = {"m%04d.rs" % i: [S(10000 + i)] + ([S(20000 + i, ref=i)] if i % 3 == 0 and i else []) for i in range(1100)}
+    rl.planned_runs(binary, rl.Scenario("many-files", many, opaque=False), [[("check", ""), ("edit", ""), ("check", "")]], batch, v)
     env_step(v, binary, batch, tier, follow="check")
     batch.judge(v, {"C08"})
     v.cov["rule"] = ("errno / short-write injection at every temp-file operation of an edit run, multi-fault plans on "
